@@ -240,6 +240,14 @@ def instAgrees (hook : Bool) (m : PluginInst) (impl : Json) : Bool :=
 def listAgrees {α : Type} (f : α → Json → Bool) (ms : List α) (is : List Json) : Bool :=
   ms.length == is.length && (ms.zip is).all fun (m, i) => f m i
 
+/-- same elements up to order: every model element is matched by a distinct implementation element -/
+def permAgrees {α : Type} (f : α → Json → Bool) : List α → List Json → Bool
+  | [], is => is.isEmpty
+  | m :: ms, is =>
+    match is.findIdx? (f m) with
+    | some k => permAgrees f ms (is.eraseIdx k)
+    | none => false
+
 def rulesetAgrees (m : RulesetC) (i : Json) : Bool :=
   jstr i "name" == String.ofList m.name &&
   listAgrees (fun (g : DetectorGroupC) j => jstr j "name" == String.ofList g.name &&
@@ -508,7 +516,11 @@ def handleDropIn (sc tr : Json) : Json :=
     let m := loadDropIn env root doc
     let implDrop := dropinRulesetsOf (jobj tr "engine")
     let acc := !esc && (match m with
-      | .ok u => r == "accepted" && (u.rulesets.isEmpty || listAgrees rulesetAgrees u.rulesets implDrop)
+      | .ok u =>
+        -- the engine lists the drop-ins per base ruleset, newest first (`Engine::addDropInConfig` pushes to the front), so
+        -- several rulesets of one file come out in another order than the file's; the order is C13's subject, here the
+        -- merged rulesets are compared as a multiset
+        r == "accepted" && (u.rulesets.isEmpty || permAgrees rulesetAgrees u.rulesets implDrop)
       | .rejected => r == "rejected"
       | .throws _ => false)
     let viol := (if esc then ["escape:" ++ r] else []) ++
